@@ -611,3 +611,85 @@ def lookahead_suite(run, scratch, seed, n):
 def tok_nonzero(t):
     v = common.tok_val(t)
     return isinstance(v, float) and v != 0.0
+
+
+# ---------------------------------------------------------------- C09: nested index vs stand-alone index
+def nested_suite(run, scratch, seed, n):
+    import backtest_corr
+    import gen_backtest
+    import oracles as O
+    import random
+    rng = random.Random(seed * 37 + 2)
+    cases, pairs = [], []
+    tries = 0
+    while len(pairs) < n and tries < 20 * n:
+        tries += 1
+        c = gen_backtest.gen_case(rng, "n%05d" % tries)
+        t = c["tree"]
+        if t[0] != "strat" or t[2] or not any(k[0] == "strat" for k in t[3]):
+            continue
+        subs = []
+        for k in t[3]:
+            if k[0] != "strat":
+                continue
+            fl = O.flat_algos(k[4])
+            # inside the property's quantifier: deterministic, gated by a calendar scheduler, no run_always algo
+            if k[4] and k[4][0][0] == "runperiod" and not any(a[0] == "always" for a in k[4]) and \
+                    not any(a[0] in ("useradjust", "capitalflow") for a in fl):
+                subs.append(k)
+        if not subs:
+            continue
+        cases.append(c)
+        for k in subs:
+            alone = dict(c)
+            alone["tree"] = k
+            alone["capital"] = (1000000.0).hex()
+            alone["name"] = "%s_alone%d" % (c["name"], k[1])
+            cases.append(alone)
+            pairs.append((c["name"], k[1], alone["name"]))
+    res = backtest_corr.run_cases(cases, scratch)
+    by = {r[0]["name"]: r for r in res}
+    tally = {"equal": 0, "drift": 0, "diff": 0}
+    first_diff = None
+    for r in res:
+        tally[r[1]] += 1
+        if r[1] == "diff" and first_diff is None:
+            first_diff = r
+    bad, compared, moved = 0, 0, 0
+    for nested_name, kid, alone_name in pairs:
+        a, b = by[nested_name][3], by[alone_name][3]
+        if not a or not b or a["steps"][-1]["status"][1] != "ok" or b["steps"][-1]["status"][1] != "ok":
+            continue
+        sa, sb = a["steps"][-1]["state"], b["steps"][-1]["state"]
+        pn, ps = sa.get("r.%d hg_prices" % kid), sb.get("r hg_prices")
+        pu = sa.get("r ucol.%d" % kid)
+        if pn is None or ps is None:
+            continue
+        compared += 1
+        if any(common.tok_val(x) != 100.0 for x in ps):
+            moved += 1
+        msg = None
+        if any(common.close(x, y) != 0 for x, y in zip(pn, ps)):
+            msg = "the sub-strategy's index differs from its stand-alone index"
+        elif pu is not None and any(common.close(x, y) != 0 for x, y in zip(pu[1:], pn[1:])):
+            msg = "the parent's universe column for the child differs from the child's index"
+        if msg:
+            bad += 1
+            if bad <= 2:
+                run.violation({"suite": "nested_vs_standalone", "case": by[nested_name][0], "standalone_case": by[alone_name][0],
+                               "child": kid, "nested_prices": pn, "standalone_prices": ps, "parent_universe_column": pu},
+                              "%s (%s child %d)" % (msg, nested_name, kid))
+    if first_diff is not None:
+        c, v, d, ic, mc = first_diff
+        run.violation({"suite": "nested_vs_standalone", "case": c, "difference": d, "n_disagreeing_cases": tally["diff"],
+                       "broken": "correspondence nested_vs_standalone (Algos.v / Engine.v paper copies vs bt)"},
+                      "correspondence nested_vs_standalone: implementation and model disagree on %d of %d runs; first: %s %s"
+                      % (tally["diff"], len(res), c["name"], json.dumps(d)[:300]))
+    return {"evaluations": len(cases), "distinct_nontrivial": moved, "traces_validated_against_impl": tally["equal"] + tally["drift"],
+            "bit_drift": tally["drift"], "disagreements": tally["diff"], "pairs_compared": compared, "oracle_failures": bad,
+            "rule": "nested backtests whose sub-strategies are deterministic and gated by a calendar scheduler (no run_always algo); "
+                    "each sub-strategy definition is also backtested alone on the same data and settings with the default capital; the "
+                    "child's recorded index, the parent's universe column for it and the stand-alone index must be identical bit "
+                    "for bit, whatever and whenever the parent allocates; all four runs also checked against the model; non-trivial = "
+                    "pairs whose index actually moves",
+            "samples": [{"nested": p[0], "child": p[1]} for p in pairs[:3]]}
